@@ -360,6 +360,10 @@ def random_program(rnd, name="c24prog", ranks=1, ninvokes=None, style=None,
     idx_now = None
     grow_left = [1]
     allow_dup = style != "plain" and rnd.random() < p_dup
+    allow_clash = style != "plain" and rnd.random() < 0.03
+    # an upper-case kind suffix (1.0_R_DEF) makes PSyclone fail ("not a
+    # recognised LFRic precision"): a refusal, so only a few programs try it
+    upper_lit = style != "plain" and rnd.random() < 0.03
     plain = style == "plain"
 
     def norm(t):
@@ -372,6 +376,12 @@ def random_program(rnd, name="c24prog", ranks=1, ninvokes=None, style=None,
               "W0": rnd.sample(FIELDS_W0, rnd.randint(2, 4))}
         if plain:
             ws = {"W3": ["f1", "f2", "f3", "fa_1"], "W0": ["g1", "g2", "g3"]}
+        # a field called f2_proxy / f1_data next to f2 / f1 in one invoke
+        # makes the PSy module itself invalid Fortran (observed; outside
+        # this property): only a few programs keep that combination
+        for base, evil in (("f2", "f2_proxy"), ("f1", "f1_data")):
+            if base in ws["W3"] and evil in ws["W3"] and not allow_clash:
+                ws["W3"].remove(evil if rnd.random() < 0.5 else base)
         wsr = rnd.sample(sorted(REALS), 3)
         # idx can have only one value during an invoke
         idx_inv = None if plain else rnd.choice([1, 2])
@@ -441,7 +451,10 @@ def random_program(rnd, name="c24prog", ranks=1, ninvokes=None, style=None,
                     if rnd.random() < 0.45:
                         st = rnd.choice(REAL_LITERALS)
                         forms.add("literal")
-                        tx = st if plain or rnd.random() < 0.7 else st.upper()
+                        tx = st
+                        if upper_lit and rnd.random() < 0.5:
+                            tx = st.upper()
+                            forms.add("literal_kind_upper_case")
                     else:
                         st, tx = choose(wsr)
                 else:  # "i"
